@@ -9,6 +9,7 @@ matches of the text leaves).  Exhaustive part: every string over {a, LF} up to
 the length bound, every offset.
 """
 import itertools
+import random
 import re
 
 from tsv.base import Prop, fail, short
@@ -37,7 +38,7 @@ def opener_of(el):
     return None
 
 
-def check_positions(soup, src, ctx):
+def check_positions(soup, src, ctx, exact=True):
     from TexSoup.data import TexExpr, TexText
     from TexSoup.utils import Token
     for cont, where, idx, el in common.raw_nodes(soup.expr):
@@ -50,6 +51,12 @@ def check_positions(soup, src, ctx):
                 return f
         elif isinstance(el, TexExpr):
             pos, text, opener = el.position, str(el), opener_of(el)
+            if not exact:
+                # blanks before argument groups are not part of the printed
+                # node: only its first characters can be compared
+                text = opener or text[:1]
+                if hasattr(el, 'name') and opener == '\\' and str(el.name).isalpha():
+                    text = '\\' + str(el.name)
         else:
             continue
         ctx.count('positions_checked')
@@ -148,7 +155,10 @@ class C13(Prop):
     rule = ('cases: (i) every string over {a, LF} up to the length bound '
             '(exhaustive), every offset through char_pos_to_line; (ii) W1 '
             'documents with LF line structure: every node / group / text '
-            'token position, every offset, 11 regexes over all text leaves; '
+            'token position, every offset, 11 regexes over all text leaves; (iii) '
+            'such documents with blanks / a line break before argument groups '
+            '(the printed tree is shorter than the source): every offset, '
+            'every token position, the first characters of every node; '
             'non-trivial = >= 2 lines or >= 3 construct kinds; distinct = by '
             'source text')
     assumptions = (
@@ -177,8 +187,23 @@ class C13(Prop):
         n = 12000 if tier == 'quick' else 300000
         yield from common.doc_cases(seed, n, want, 'c13',
                                     lambda j: common.cfg_general(j, tier), k0=k)
+        # (iii) the same kind of documents with blanks / one line break before
+        # argument groups: the tree does not keep those characters, so the
+        # printed tree is shorter than the source - offsets must still refer
+        # to the source
+        k += n
+        m = 2500 if tier == 'quick' else 60000
+        for j in range(m):
+            k += 1
+            if not want(k):
+                continue
+            rng = random.Random('%d/%d/c13s' % (seed, j))
+            src, ast = docgen.gen_doc(rng, common.cfg_general(j, tier))
+            yield k, {'src': docgen.render_spaced(ast, rng), 'spaced': True}
 
     def nontrivial(self, p):
+        if p.get('spaced'):
+            return True
         if p.get('lines_only'):
             return '\n' in p['src']
         return len(docgen.kinds(docgen.totuple(p['ast']))) >= 3
@@ -188,6 +213,18 @@ class C13(Prop):
 
     def check(self, p, ctx):
         src = p['src']
+        if p.get('spaced'):
+            try:
+                soup = common.parse(src)
+            except (EOFError, TypeError, AssertionError):
+                ctx.count('spaced_documents_rejected')
+                return []
+            ctx.count('spaced_documents')
+            if str(soup) != src:
+                ctx.count('spaced_documents_printed_shorter')
+            f = check_linecol(soup, src, ctx) or check_positions(soup, src, ctx, exact=False) \
+                or check_regex(soup, src, ctx)
+            return [f] if f else []
         soup = common.parse(src)
         f = check_linecol(soup, src, ctx)
         if f:
@@ -199,13 +236,15 @@ class C13(Prop):
         return [f] if f else []
 
     def shrink(self, p, still_fails):
-        if p.get('lines_only'):
+        if p.get('lines_only') or p.get('spaced'):
             return common.shrink_text(p, still_fails)
         return common.shrink_doc(p, still_fails)
 
     def gates(self, m, tier):
         g = []
         c = m['counters']
+        if c.get('spaced_documents_printed_shorter', 0) < 300:
+            g.append('fewer than 300 documents whose printed tree is shorter than the source')
         if c.get('positions_checked', 0) < 50000:
             g.append('fewer than 50000 node positions checked')
         if c.get('regex_matches_checked', 0) < 50000:
